@@ -477,5 +477,34 @@ func c04JoinAccept(c *core.Ctx, r *core.RNG, key [16]byte, major byte) {
 			c.Violate("C04|joinaccept|wrong-key-differs", "wrong-key decrypt differs from the model in %s", joinAcceptMatchesBytes(rj2, gpl))
 		}
 	}
+	// a received ciphertext that itself reads like a finished join-accept: a well-formed 12-byte 1.0 payload
+	// followed by its valid MIC under the very key it is decrypted with. It is a ciphertext all the same,
+	// and what the device-side AES gives for it is the answer (random bytes hit this once in 2^32 frames;
+	// it is built backwards here)
+	if r.Chance(1, 8) {
+		look := genJoinAccept(r)
+		look.CFList = nil
+		look.DLSettings.OptNeg = false
+		lsj := specJoinAccept(look)
+		lmic := spec.JoinAcceptMIC(encKey, mhdr, lsj, 0xff, [8]byte{}, 0)
+		ct := append(append([]byte{mhdr}, lsj.Payload()...), lmic[:]...)
+		var rx3 lorawan.PHYPayload
+		c.Eval(1)
+		if rx3.UnmarshalBinary(append([]byte{}, ct...)) == nil {
+			if p, msg := core.Guard(func() { err = rx3.DecryptJoinAcceptPayload(lorawan.AES128Key(encKey)) }); p {
+				c.Violate("C04|joinaccept|lookalike-ciphertext|panic", "%s", msg)
+			} else if err == nil {
+				gpl, gmic, _ := spec.JoinAcceptDecrypt(encKey, ct[1:])
+				rj3, ok := rx3.MACPayload.(*lorawan.JoinAcceptPayload)
+				if gpl[len(gpl)-1] > 1 && len(gpl) == 28 {
+					ok = true // (cannot happen for the 12-byte form; kept for symmetry)
+				}
+				if !ok || [4]byte(rx3.MIC) != gmic || joinAcceptMatchesBytes(rj3, gpl) != "" {
+					c.Violate("C04|joinaccept|lookalike-ciphertext|decrypt-differs", "ciphertext %x (which reads like a plaintext join-accept with a valid MIC) decrypts to %s mic %x; device-side AES gives %x mic %x", ct, short(core.Dump(rx3.MACPayload), 200), [4]byte(rx3.MIC), gpl, gmic)
+				}
+			}
+			c.Shape("joinaccept-lookalike-ciphertext")
+		}
+	}
 	c.Count("msgs.joinaccept", 1)
 }
